@@ -26,6 +26,7 @@ pub type JoinHook = fn(&mut (dyn FnMut() + Send), &mut (dyn FnMut() + Send));
 // Function pointers are kept as `*mut ()` (not as integers) so that they keep their provenance.
 static DETECT: AtomicPtr<()> = AtomicPtr::new(core::ptr::null_mut());
 static KERNEL: AtomicPtr<()> = AtomicPtr::new(core::ptr::null_mut());
+static KERNEL_EXIT: AtomicPtr<()> = AtomicPtr::new(core::ptr::null_mut());
 static JOIN: AtomicPtr<()> = AtomicPtr::new(core::ptr::null_mut());
 
 pub fn set_detect_hook(hook: Option<DetectHook>) {
@@ -34,6 +35,11 @@ pub fn set_detect_hook(hook: Option<DetectHook>) {
 
 pub fn set_kernel_hook(hook: Option<KernelHook>) {
     KERNEL.store(hook.map_or(core::ptr::null_mut(), |f| f as *mut ()), Ordering::SeqCst);
+}
+
+/// Called when a kernel dispatcher returns (after its output has been written).
+pub fn set_kernel_exit_hook(hook: Option<KernelHook>) {
+    KERNEL_EXIT.store(hook.map_or(core::ptr::null_mut(), |f| f as *mut ()), Ordering::SeqCst);
 }
 
 pub fn set_join_hook(hook: Option<JoinHook>) {
@@ -51,14 +57,30 @@ pub(crate) fn detect_override() -> Option<Platform> {
     hook()
 }
 
+/// Returned by `kernel_entry`; reports the dispatcher's return when it goes out of scope.
+#[must_use]
+pub(crate) struct KernelScope(KernelCall);
+
+impl Drop for KernelScope {
+    fn drop(&mut self) {
+        let raw = KERNEL_EXIT.load(Ordering::SeqCst);
+        if !raw.is_null() {
+            // SAFETY: only set_kernel_exit_hook stores here, and it stores a KernelHook.
+            let hook: KernelHook = unsafe { core::mem::transmute::<*mut (), KernelHook>(raw) };
+            hook(self.0);
+        }
+    }
+}
+
 #[inline]
-pub(crate) fn kernel_entry(call: KernelCall) {
+pub(crate) fn kernel_entry(call: KernelCall) -> KernelScope {
     let raw = KERNEL.load(Ordering::SeqCst);
     if !raw.is_null() {
         // SAFETY: only set_kernel_hook stores here, and it stores a KernelHook.
         let hook: KernelHook = unsafe { core::mem::transmute::<*mut (), KernelHook>(raw) };
         hook(call);
     }
+    KernelScope(call)
 }
 
 /// A `Join` whose two sides are handed, type-erased, to the registered join
